@@ -250,7 +250,7 @@ pub fn gen_mapping(rng: &mut Rng, cfg: &Cfg) -> GenMapping {
                 lines.push(source_file_line(rng, cfg));
             }
             let few = rng.pct(70);
-            let obf_m = rng.pick(&OBF_METHODS[..if few { 4 } else { OBF_METHODS.len() }]);
+            let obf_m = rng.pick(&OBF_METHODS[..if cfg.max_members > 40 { 3 } else if few { 4 } else { OBF_METHODS.len() }]);
             let range = match rng.below(10) {
                 0..=1 => None,
                 _ => {
